@@ -133,7 +133,8 @@ def run(ctx):
     # ------------------------------------------------------------------ (5) predicate integrity
     vf = ctx.fn(MSGVERIFY)
     ev = W.ev(MSGVERIFY)
-    r = ev.ret()
+    from lib import ret_as_predicate
+    r = ret_as_predicate(W, MSGVERIFY)
     ok = False
     detail = "return term: " + values.fmt(r)
     if is_call(r, "Result::is_ok") and len(r[2]) == 1 and is_call(r[2][0]):
@@ -144,7 +145,12 @@ def run(ctx):
             sig_src = values.strip_payload(sig)
             okk = key == ("field", ("param", MSGVERIFY, 1), "pubkey")
             okd = data == ("field", ("param", MSGVERIFY, 1), "buf")
-            oks = is_call(sig_src, "Signature::from_slice") and sig_src[2][0] == ("param", MSGVERIFY, 2)
+            # the 64 signature bytes given to verify(): Signature::from_slice(sig) or Signature::from_bytes(<&[u8; 64]>::try_from(sig))
+            sig_in = sig_src
+            for _ in range(3):
+                if is_call(sig_in) and callee_name(sig_in[1]) in ("from_slice", "from_bytes", "try_from", "try_into", "from", "into") and sig_in[2]:
+                    sig_in = values.strip_payload(sig_in[2][0])
+            oks = is_call(sig_src) and "Signature" in sig_src[1] and sig_in == ("param", MSGVERIFY, 2)
             ok = okk and okd and oks
             detail = "verify = is_ok(VerifyingKey::verify(key=%s, msg=%s, sig=%s))" % (values.fmt(key), values.fmt(data), values.fmt(sig_src))
     ctx.check("predicate-integrity", "sign::MsgVerifier::verify/returns-dalek-result", ok, detail,
